@@ -160,14 +160,28 @@ func H_C08_word(v *V) {
 	W := v.String(v.Shape("lw"))
 	v.Assume(!refOptionSyntax(W))
 	var argv []string
+	// tokens after the word: nothing, a plain word, or the root's flag and a plain word
+	tailKind := v.Choice(3)
+	if tailKind != 2 {
+		argv = append(argv, "-v")
+	}
 	if level == 0 {
 		p.SubcommandsOptional = optional
 		v.Assume(W != "add" && W != "a" && W != "plus" && W != "rm" && W != "remove")
-		argv = []string{"-v", W}
+		argv = append(argv, W)
 	} else {
 		p.Find("add").SubcommandsOptional = optional
 		v.Assume(W != "sub" && W != "s1" && W != "s2" && W != "oth")
-		argv = []string{"add", "-y", W}
+		argv = append(argv, "add", "-y", W)
+	}
+	wantRest := []string{W}
+	switch tailKind {
+	case 1:
+		argv = append(argv, "x")
+		wantRest = append(wantRest, "x")
+	case 2:
+		argv = append(argv, "-v", "x")
+		wantRest = append(wantRest, "x")
 	}
 	rest, err := p.ParseArgs(argv)
 	vObsErr(v, err)
@@ -180,7 +194,8 @@ func H_C08_word(v *V) {
 	v.Reach("optional")
 	v.Assert(err == nil, "with optional subcommands the word is an ordinary argument")
 	if err == nil {
-		v.Assert(v.EqStrs(rest, []string{W}), "the word is the first remaining argument")
+		v.Assert(v.EqStrs(rest, wantRest), "the word is the first remaining argument and the tokens after it are still parsed")
+		v.Assert(r.V && (level == 0 || r.Add.Y), "options before and after the word are set")
 		inner := p.Active
 		if level == 1 && inner != nil {
 			inner = inner.Active
